@@ -49,6 +49,7 @@ const (
 	nFat       = 16
 	nSpam      = 110 // > RejectRecCnt: the ring of rejected transactions wraps
 	nChain     = 101 // descendants of T2: more than the 100 a replacement may evict
+	nDenseFund = 200 // funding outputs of the dense-run family
 	fatScript  = 95000
 	lowLimit   = 500000 // bytes: the lowered size limit
 	expireDays = 1
@@ -83,6 +84,7 @@ func o1(v uint64) reftx.Out                      { return reftx.Out{Value: v, Sc
 type prefixFile struct {
 	Blocks []string `json:"blocks"`
 	M      string   `json:"m"` // txid of the funding transaction (block 102)
+	N      string   `json:"n"` // txid of the second funding transaction (block 103): 2 x 5e8, nDenseFund x 1e7
 }
 
 // Funding transaction M (block 102): outputs 0..3 = U1..U4 (OP_1, 5e8), 4 = U5
@@ -105,6 +107,16 @@ func buildPrefix() string {
 			s.Txs = append(s.Txs, m)
 			s.Fees = 50e8 - 22e8 - nFat*1e8
 			pf.M = hex.EncodeToString(func() []byte { id := m.TxID(); return id[:] }())
+		}
+		if h == 103 { // funding of the dense-run family: two large outputs (anchors), then nDenseFund of 1e7
+			outs := []reftx.Out{o1(5e8), o1(5e8)}
+			for i := 0; i < nDenseFund; i++ {
+				outs = append(outs, o1(1e7))
+			}
+			n := minichain.Spend([]refchain.Outpoint{cb[2]}, outs)
+			s.Txs = append(s.Txs, n)
+			s.Fees = 50e8 - 10e8 - nDenseFund*1e7
+			pf.N = hex.EncodeToString(func() []byte { id := n.TxID(); return id[:] }())
 		}
 		b := minichain.Build(s)
 		if r := e.Deliver(b.Bytes()); r != "ok" {
@@ -207,9 +219,19 @@ func buildUniverse(M [32]byte) *universe {
 	lp2 := u.add("LP2", ops(op(lg.id, 0)), outs(o1(2e8-60000)))                     // 61 B, ~980 sat/B
 	lp1 := u.add("LP1", ops(U(3)), outs(o1(5e8-43000)))                             // 61 B, ~705 sat/B
 	u.add("LC", ops(op(lp1.id, 0), op(lp2.id, 0)), outs(o1(7e8-43000-60000-86000))) // ~102 B, ~843 sat/B
-	u.add("CLo", ops(op(u.by["T1lo"].id, 0)), outs(o1(5e8-5000-10000)))             // child of the low-fee double spend
-	u.add("OV", ops(U(4)), outs(o1(5e8+1)))                                         // outputs exceed inputs
-	wtx := u.add("W", ops(op(M, uint32(5+nFat))), outs(o1(1e8-30000)))              // segwit spend: size != stripped size
+	// side branches: TM (medium rate, 5 outputs) has the children CM2 (very high fee) and CS1/CS2/CS3 (high
+	// fee); the SECOND parent of CSd sits at depth d of a chain of low-rate unconfirmed transactions SR <- SQ <- SP
+	sr := u.add("SR", ops(U(3)), outs(o1(2e8), o1(3e8-100)))                             // fee 100
+	sq := u.add("SQ", ops(op(sr.id, 0)), outs(o1(1e8), o1(1e8-200)))                     // fee 200
+	sp := u.add("SP", ops(op(sq.id, 0)), outs(o1(5e7), o1(5e7-300)))                     // fee 300
+	tm := u.add("TM", ops(U(4)), outs(o1(1e8), o1(1e8), o1(1e8), o1(1e8), o1(1e8-1000))) // fee 1000
+	u.add("CM2", ops(op(tm.id, 3)), outs(o1(1e8-100000)))
+	u.add("CS1", ops(op(tm.id, 0), op(sr.id, 1)), outs(o1(1e8+3e8-100-50000)))
+	u.add("CS2", ops(op(tm.id, 1), op(sq.id, 1)), outs(o1(1e8+1e8-200-50000)))
+	u.add("CS3", ops(op(tm.id, 2), op(sp.id, 1)), outs(o1(1e8+5e7-300-50000)))
+	u.add("CLo", ops(op(u.by["T1lo"].id, 0)), outs(o1(5e8-5000-10000))) // child of the low-fee double spend
+	u.add("OV", ops(U(4)), outs(o1(5e8+1)))                             // outputs exceed inputs
+	wtx := u.add("W", ops(op(M, uint32(5+nFat))), outs(o1(1e8-30000)))  // segwit spend: size != stripped size
 	wtx.tx.In[0].Witness = [][]byte{{0x51}}
 	wtx.raw = wtx.tx.Serialize(true)
 	for i := 1; i <= nSpam; i++ { // orphans whose parents never show up
@@ -284,6 +306,84 @@ type world struct {
 	undone  int
 	current string
 	before  map[string]bool // pool content (names) before the current event
+	fundN   [32]byte        // second funding transaction
+	dense   *denseRun       // the dense run of this history, once a dense: event happened
+}
+
+// A dense run: n unrelated transactions DR1..DRn of identical size (1 input, 4 outputs) whose fees
+// follow a shape, optionally between a high-rate anchor DH and a low-rate anchor DL (n outputs + change each).
+//
+//	eq   all the same fee: each one sorts behind the previous equal ones
+//	asc  strictly increasing: each one sorts in front of the previous one (behind DH if present)
+//	desc strictly decreasing: each one sorts behind the previous one (in front of DL if present)
+//	zig  alternately above and below, converging: each one sorts between the previous two
+//
+// Children (event kids): DAi spends DRi:0 and DH:i, DBi spends DRi:1 and DL:i (when the anchor exists),
+// DNi (even i) spends DRi:2 and DR(i+1):3 - always one parent inside the run and one elsewhere.
+type denseRun struct {
+	anchors, shape string
+	n              int
+}
+
+func (w *world) buildDense(anchors, shape string, n int) {
+	if w.dense != nil {
+		hfail("one dense run per history")
+	}
+	if n < 2 || n > nDenseFund {
+		hfail("dense run length %d", n)
+	}
+	w.dense = &denseRun{anchors, shape, n}
+	hi, lo := anchors == "both" || anchors == "high", anchors == "both" || anchors == "low"
+	var anch [2]*utx
+	for k, nm := range []string{"DH", "DL"} {
+		if k == 0 && !hi || k == 1 && !lo {
+			continue
+		}
+		var outs []reftx.Out
+		for i := 0; i < n; i++ {
+			outs = append(outs, o1(1e6))
+		}
+		size := uint64(10 + 41 + (n+1)*10)
+		fee := 1000 * size
+		if k == 1 {
+			fee = 2 * size
+		}
+		outs = append(outs, o1(5e8-uint64(n)*1e6-fee))
+		anch[k] = w.u.add(nm, []refchain.Outpoint{op(w.fundN, uint32(k))}, outs)
+	}
+	run := make([]*utx, n)
+	for i := 0; i < n; i++ {
+		fee := uint64(20000)
+		switch shape {
+		case "eq":
+		case "asc":
+			fee += uint64(i) * 10
+		case "desc":
+			fee -= uint64(i) * 10
+		case "zig":
+			if i%2 == 0 {
+				fee += uint64(n-i) * 10
+			} else {
+				fee -= uint64(n-i) * 10
+			}
+		default:
+			hfail("unknown dense shape %q", shape)
+		}
+		run[i] = w.u.add(fmt.Sprint("DR", i+1), []refchain.Outpoint{op(w.fundN, uint32(2+i))},
+			[]reftx.Out{o1(2400000), o1(2400000), o1(2400000), o1(1e7 - 7200000 - fee)})
+	}
+	for i := 0; i < n; i++ {
+		if anch[0] != nil {
+			w.u.add(fmt.Sprint("DA", i+1), []refchain.Outpoint{op(run[i].id, 0), op(anch[0].id, uint32(i))}, []reftx.Out{o1(3400000 - 100000)})
+		}
+		if anch[1] != nil {
+			w.u.add(fmt.Sprint("DB", i+1), []refchain.Outpoint{op(run[i].id, 1), op(anch[1].id, uint32(i))}, []reftx.Out{o1(3400000 - 100000)})
+		}
+		if i%2 == 0 && i+1 < n {
+			w.u.add(fmt.Sprint("DN", i+1), []refchain.Outpoint{op(run[i].id, 2), op(run[i+1].id, 3)},
+				[]reftx.Out{o1(2400000 + run[i+1].tx.Out[3].Value - 5000)})
+		}
+	}
 }
 
 func (w *world) tip() *refchain.Node { return w.m.BestTips()[0] }
@@ -487,10 +587,12 @@ func (w *world) submit(via, name string) {
 	}
 }
 
-func (w *world) submitQuiet(via, name string) {
+func (w *world) submitQuiet(via, name string) string {
 	n := len(w.res.Trace)
 	w.submit(via, name)
+	r := w.res.Trace[len(w.res.Trace)-1].Result
 	w.res.Trace = w.res.Trace[:n]
+	return r
 }
 
 func (w *world) event(name string) {
@@ -508,6 +610,47 @@ func (w *world) event(name string) {
 				w.res.Replaced = true
 			}
 		}
+	case strings.HasPrefix(name, "dense:"): // dense:<anchors>:<shape>:<n>
+		f := strings.Split(name, ":")
+		n := 0
+		if len(f) != 4 {
+			hfail("bad event %q", name)
+		}
+		fmt.Sscan(f[3], &n)
+		w.buildDense(f[1], f[2], n)
+		cnt, acc := 0, 0
+		for _, nm := range []string{"DH", "DL"} {
+			if w.u.by[nm] != nil {
+				if w.submitQuiet("net", nm) == "accepted" {
+					acc++
+				}
+				cnt++
+			}
+		}
+		for i := 1; i <= n; i++ {
+			if w.submitQuiet("net", fmt.Sprint("DR", i)) == "accepted" {
+				acc++
+			}
+		}
+		w.step(name, fmt.Sprint(cnt, " anchors + ", n, " run transactions, accepted ", acc))
+		w.oracle(name)
+	case name == "kids": // the two-parent children of the dense run
+		if w.dense == nil {
+			hfail("kids without a dense run")
+		}
+		cnt, acc := 0, 0
+		for i := 1; i <= w.dense.n; i++ {
+			for _, p := range []string{"DA", "DB", "DN"} {
+				if nm := fmt.Sprint(p, i); w.u.by[nm] != nil {
+					if w.submitQuiet("net", nm) == "accepted" {
+						acc++
+					}
+					cnt++
+				}
+			}
+		}
+		w.step(name, fmt.Sprint(cnt, " children with two parents, accepted ", acc))
+		w.oracle(name)
 	case name == "fat": // F1..Fn and the child paying for F1, all from the network
 		for i := 1; i <= nFat; i++ {
 			w.submitQuiet("net", fmt.Sprint("F", i))
@@ -1028,11 +1171,18 @@ func (w *world) stateKey() string {
 		var ps []string
 		for _, p := range txpool.FeePackages {
 			var o []string
+			// root first, then the members as a set: the order of siblings inside a package comes
+			// from Go map iteration in GetChildren (not owned by the harness); order validity is
+			// what the listing oracle checks
 			for _, t := range p.Txs {
 				o = append(o, w.nm(t.Hash.Hash[:]))
 			}
+			if len(o) > 1 {
+				sort.Strings(o[1:])
+			}
 			ps = append(ps, strings.Join(o, "+"))
 		}
+		sort.Strings(ps)
 		fmt.Fprintf(&sb, " pkgs=%v", ps)
 	}
 	due, sinceSort, sinceAdj := txpool.VerifClockState()
@@ -1087,6 +1237,8 @@ func runJob(job *Job) (res *Result) {
 	mb, _ := hex.DecodeString(pf.M)
 	copy(M[:], mb)
 	w.u = buildUniverse(M)
+	nb, _ := hex.DecodeString(pf.N)
+	copy(w.fundN[:], nb)
 	ev.CopyDir(job.Prefix+"/chain", w.dir+"/d")
 
 	// ---- environment the client's init code would set up (common.InitConfig is not called)
@@ -1329,7 +1481,153 @@ var scenarios = []scenario{
 	{"rbf100", []string{"net:T2", "chain", "net:T2hi", "tru:T2hi", "list", "mine:best", "reorg:", "reload"}, false, true},
 	{"rbf-own-parent", []string{"net:T1", "net:C1", "net:R", "net:R2", "net:R3", "tru:R2", "mine:best", "list", "reorg:"}, false, true},
 	{"levels", []string{"net:LG", "net:LP2", "net:LP1", "net:LC", "list", "mine:best", "mine:LG", "reorg:"}, false, true},
+	{"side", []string{"net:SR", "net:SQ", "net:TM", "net:CM2", "net:CS2", "list", "adv13h", "mine:T2"}, false, true},
 	{"final-rbf", []string{"net:T1", "net:T1hi", "tru:T1hi", "loc:T1hi", "net:C1", "mine:best", "mine:T1hi", "reorg:", "list"}, true, true},
+}
+
+// Scripted histories: depth instead of breadth. Long deterministic histories that a BFS of
+// depth 4-7 cannot reach, each executed once (fresh worker, same oracles).
+//
+//	dense  rank-gap exhaustion / re-indexing of the sorted list: runs of n equal-rate or
+//	       interleaving-rate transactions into one gap at the head, in the middle and at the tail
+//	       of the list (anchors none/high/low/both), then children with one parent inside the
+//	       run and one outside; with and without a listing between run and children
+//	side   CPFP child whose second parent sits at depth 1, 2, 3 of a low-rate unconfirmed chain,
+//	       parents first and children first, with a listing before and after every
+//	       package-rebuild trigger (connected block, undone block, 10-minute suspend, reload)
+type script struct {
+	family string
+	events []string
+}
+
+func scripts(thorough bool) (l []script) {
+	for _, n := range []int{64, 200} {
+		for _, anchors := range []string{"both", "high", "low", "none"} {
+			for _, shape := range []string{"eq", "asc", "desc", "zig"} {
+				d := fmt.Sprintf("dense:%s:%s:%d", anchors, shape, n)
+				l = append(l, script{"dense", []string{d, "kids"}}, script{"dense", []string{d, "list", "kids"}})
+				if thorough {
+					l = append(l, script{"dense", []string{d, "list", "kids", "list", "mine:T2", "reload"}})
+				}
+			}
+		}
+	}
+	for d := 1; d <= 3; d++ {
+		side := []string{"net:SR", "net:SQ", "net:SP"}[:d]
+		cs := fmt.Sprint("net:CS", d)
+		base := append(append([]string{}, side...), "net:TM", "net:CM2", cs)
+		noCM2 := append(append([]string{}, side...), "net:TM", cs)
+		cat := func(a []string, b ...string) []string { return append(append([]string{}, a...), b...) }
+		l = append(l,
+			script{"side", base},
+			script{"side", cat(base, "list")},
+			script{"side", cat(base, "list", "mine:T2", "list")},
+			script{"side", cat(base, "mine:T2", "list")},
+			script{"side", cat(base, "list", "mine:T2", "reorg:", "list")},
+			script{"side", cat(noCM2, "list", "adv13h", "net:CM2", "list")},
+			script{"side", cat(base, "list", "reload", "list")},
+			script{"side", cat(base, "reload")},
+		)
+		rev := []string{cs, "net:CM2", "net:TM"}
+		for i := d - 1; i >= 0; i-- {
+			rev = append(rev, side[i])
+		}
+		l = append(l, script{"side", rev}, script{"side", cat(rev, "list", "mine:T2", "list")})
+	}
+	return
+}
+
+func uniq(l []string) (r []string) {
+	seen := map[string]bool{}
+	for _, e := range l {
+		if !seen[e] {
+			seen[e] = true
+			r = append(r, e)
+		}
+	}
+	return
+}
+
+// runScripts executes the scripted histories (in parallel, results merged in script order).
+func (x *explorer) runScripts(l []script) {
+	r := x.r
+	res := make([]*Result, len(l))
+	var wg sync.WaitGroup
+	for i := range l {
+		if r.OverBudget() {
+			break
+		}
+		x.sem <- struct{}{}
+		wg.Add(1)
+		go func(i int) {
+			defer wg.Done()
+			defer func() { <-x.sem }()
+			res[i] = x.exec(scenario{name: "scripted", menu: uniq(l[i].events)}, l[i].events)
+		}(i)
+	}
+	wg.Wait()
+	seen := map[string]bool{}
+	per := map[string]map[string]int{}
+	for i, sc := range l {
+		t := res[i]
+		fam := "scripted-" + sc.family
+		if per[fam] == nil {
+			per[fam] = map[string]int{}
+		}
+		if t == nil {
+			per[fam]["not_run_budget"]++
+			continue
+		}
+		per[fam]["histories"]++
+		x.mu.Lock()
+		x.transitions += len(sc.events)
+		for _, e := range sc.events {
+			x.perEvent[evClass(e)]++
+		}
+		x.oracles += t.Oracles
+		x.blocks += t.Blocks
+		x.blockTxs += t.BlockTxs
+		x.undone += t.Undone
+		if t.MaxPool > x.maxPool {
+			x.maxPool = t.MaxPool
+		}
+		x.mu.Unlock()
+		switch {
+		case t.Harness != "":
+			x.mu.Lock()
+			x.harness = append(x.harness, fmt.Sprintf("scripted %v: %s", sc.events, t.Harness))
+			x.mu.Unlock()
+		case t.Key != "":
+			ok := true
+			for k := 0; k < 2; k++ {
+				if again := x.run(scenario{name: "scripted", menu: uniq(sc.events)}, sc.events); again.Key != t.Key {
+					ok = false
+				}
+			}
+			x.mu.Lock()
+			if ok {
+				x.confirmed++
+				r.Report(t.Key, t.What, map[string]interface{}{"scenario": "scripted", "events": sc.events, "trace": t.Trace})
+			} else {
+				r.Unrepro = append(r.Unrepro, fmt.Sprintf("scripted %v: %s", sc.events, t.Key))
+			}
+			x.mu.Unlock()
+		default:
+			if !seen[t.StateKey] {
+				seen[t.StateKey] = true
+				per[fam]["states"]++
+			}
+			if t.MaxPool > per[fam]["max_pool"] {
+				per[fam]["max_pool"] = t.MaxPool
+			}
+		}
+	}
+	x.mu.Lock()
+	x.states += len(seen)
+	for k, v := range per {
+		x.perScenario[k] = v
+	}
+	x.mu.Unlock()
 }
 
 type hist struct {
@@ -1559,6 +1857,13 @@ func main() {
 		r.Budget, _ = time.ParseDuration(b)
 	}
 	var wg sync.WaitGroup
+	if f := os.Getenv("C12_SCENARIO"); f == "" || strings.Contains(","+f+",", ",scripted,") {
+		wg.Add(1)
+		go func() {
+			defer wg.Done()
+			x.runScripts(scripts(r.Thorough()))
+		}()
+	}
 	for _, sc := range scenarios {
 		if f := os.Getenv("C12_SCENARIO"); f != "" && !strings.Contains(","+f+",", ","+sc.name+",") {
 			continue
@@ -1604,10 +1909,12 @@ func main() {
 		"prefix_dirs_rebuilt":             x.rebuilt,
 		"worker_cpu_s":                    float64(atomic.LoadInt64(&workerCPU)/1e7) / 100,
 		"samples":                         x.samples.L,
-		"rule": "BFS over event histories per scenario (event menus: rbf, graph, reorgs, orphans, limits, rbf100, final-rbf = NotFullRBF configuration), every history in a fresh worker process on a copy of a 105-block chain wired to txpool as client/main.go does; " +
-			"invariant oracle after every event, listing + block-from-listing acceptance at the end of every history; state key = (confirmed txs, tip block txs, pooled txs with Local/Final/MemInputs/age bucket, rejected records with reason, pending, dirty flags, sort order, fee packages, clock buckets, dynamic minimal fee, size limit)",
+		"rule": "BFS over event histories per scenario (one event menu each; per_scenario lists them; final-rbf = NotFullRBF configuration), every history in a fresh worker process on a copy of a 105-block chain wired to txpool as client/main.go does; " +
+			"plus scripted long histories (depth instead of breadth): dense = runs of 64 and 200 equal-rate / ascending / descending / converging-rate transactions into one gap of the sorted list with none/high/low/both anchors, then two-parent children (one parent inside the run, one outside), with and without a listing in between; " +
+			"side = CPFP child whose second parent sits at depth 1-3 of a low-rate unconfirmed chain, parents first and children first, listing before and after every package-rebuild trigger (connected block, undone block, 10-minute suspend, reload); " +
+			"invariant oracle after every event, both listings + block-from-listing acceptance at the end of every history; state key = (confirmed txs, tip block txs, pooled txs with Local/Final/MemInputs/age bucket, rejected records with reason, pending, dirty flags, sort order, fee packages as root+member set, clock buckets, dynamic minimal fee, size limit)",
 	}, []string{
-		"universe: 4 mature OP_1 outputs + one OP_0 output + 16 funding outputs; T1, T1lo/T1eq/T1hi (double spends, lower/equal/higher fee rate), T1alt (only ever mined), C1, G, T2, D (diamond), X, O, O2 (orphans), B (bad script, network path only), L (fee below floor), R (double spend that also spends its victim's output), CLo (child of the rejected low-fee double spend), OV (overspend), W (segwit spend), S1..S110 (parent-less, more than the rejected ring holds), T2hi + K1..K101 (replacement of a transaction with 101 descendants), F1..F16 (95 kB) + CF (child paying for F1)",
+		"universe: 4 mature OP_1 outputs + one OP_0 output + 16 funding outputs; T1, T1lo/T1eq/T1hi (double spends, lower/equal/higher fee rate), T1alt (only ever mined), C1, G, T2, D (diamond), X, O, O2 (orphans), B (bad script, network path only), L (fee below floor), R (double spend that also spends its victim's output), CLo (child of the rejected low-fee double spend), OV (overspend), W (segwit spend), S1..S110 (parent-less, more than the rejected ring holds), T2hi + K1..K101 (replacement of a transaction with 101 descendants), F1..F16 (95 kB) + CF (child paying for F1); SR<-SQ<-SP low-rate chain, TM with children CM2 and CS1/CS2/CS3 (second parent at depth 1/2/3 of the chain); dense family DH/DL anchors, DR1..DRn, children DAi/DBi/DNi built per history from a second funding transaction (block 103)",
 		"script-invalid transactions are submitted only through the network path (SubmitLocalTx/Trusted skip script checks by design); BlockInvalid on trusted blocks and BlockUndone without callbacks are not in the menus",
 		"the wall clock is emulated by moving every time stamp txpool holds back by 13 h (overlay txpool.VerifAdvanceClock); expiry after 1 day; the size limit is lowered to 500 kB through overlay common.VerifSetMaxMempoolSize",
 		"the block assembled from the listing takes the listed transactions in order while they fit into 4M weight, and claims subsidy plus the RECORDED fees",
@@ -1635,6 +1942,9 @@ func replay(x *explorer, file string) int {
 		if scenarios[i].name == rec.Replay.Scenario {
 			sc = &scenarios[i]
 		}
+	}
+	if sc == nil && rec.Replay.Scenario == "scripted" {
+		sc = &scenario{name: "scripted", menu: uniq(rec.Replay.Events)}
 	}
 	if sc == nil {
 		ev.HarnessError("unknown scenario %q", rec.Replay.Scenario)
